@@ -300,11 +300,21 @@ impl Drop for Proc {
     }
 }
 
+pub fn is_resource_error(msg: &str) -> bool {
+    let m = msg.to_ascii_lowercase();
+    ["canceled", "cancelled", "timeout", "time out", "resource limit", "out of memory", "max. memory", "interrupted", "memory limit"].iter().any(|k| m.contains(k))
+}
+
 pub fn classify(lines: &[String]) -> Answer {
     let mut ans = None;
     for l in lines {
         let t = l.trim();
         if t.starts_with("(error") {
+            // a cancelled command (per-query timer firing inside push/define, resource or memory limit) is
+            // not a judgement about the text: inconclusive, never "rejected"
+            if is_resource_error(t) {
+                return Answer::Unknown;
+            }
             return Answer::Error(t.to_string());
         }
         match t {
